@@ -54,11 +54,15 @@ fn join_prog() -> Cmd {
     .unwrap()
 }
 
-fn all_prog() -> Cmd {
-    serde_json::from_value(json!({"k":"all","id":1,"tid":2,"cs":[
-        {"tid":3,"c":{"k":"chain","id":4,"tid":5,"root":{"k":"req","tag":1,"val":1},"stages":[],"sink":{"tag":2}}},
-        {"tid":6,"c":{"k":"chain","id":7,"tid":8,"root":{"k":"req","tag":3,"val":1},"stages":[],"sink":{"tag":4}}}]}))
-    .unwrap()
+fn all_prog(k: usize) -> Cmd {
+    let cs: Vec<Value> = (0..k)
+        .map(|i| {
+            let b = 3 + 3 * i;
+            json!({"tid": b, "c": {"k":"chain","id": b + 1,"tid": b + 2,
+                   "root":{"k":"req","tag": 1 + 2 * i,"val":1},"stages":[],"sink":{"tag": 2 + 2 * i}}})
+        })
+        .collect();
+    serde_json::from_value(json!({"k":"all","id":1,"tid":2,"cs":cs})).unwrap()
 }
 
 fn log_json(v: &ViewModel) -> Vec<Value> {
@@ -195,10 +199,14 @@ fn drive(ctl: &Arc<Ctl>, k: usize, case: &MtCase) -> Driven {
 }
 
 fn table_for(scn: &str) -> Table {
+    table_for_k(scn, 2)
+}
+
+fn table_for_k(scn: &str, k: usize) -> Table {
     Table {
         progs: vec![match scn {
             "stream_bridge" => stream_prog(),
-            "all_core" => all_prog(),
+            "all_core" => all_prog(k),
             _ => join_prog(),
         }],
         follow: Default::default(),
@@ -306,19 +314,19 @@ fn run_stream_bridge(case: &MtCase, controlled: bool) -> Value {
 }
 
 fn run_join_core(case: &MtCase, controlled: bool) -> Value {
-    let _ctx = install_case(table_for(&case.scenario));
+    let is_all = case.scenario == "all_core";
+    let k = if is_all { case.threads.max(2) } else { case.threads.min(3).max(2) };
+    let _ctx = install_case(table_for_k(&case.scenario, k));
     let core = Arc::new(Core::<VApp>::new());
     let effs = core.process_event(Event::Run(0));
-    let mut reqs: Vec<crux_core::Request<crate::app::VOp>> =
-        effs.into_iter().map(|e| { let Effect::Op(r) = e; r }).collect();
-    let k = case.threads.min(3).max(2);
+    let reqs: Vec<Option<crux_core::Request<crate::app::VOp>>> =
+        effs.into_iter().map(|e| { let Effect::Op(r) = e; Some(r) }).collect();
+    let nreq = reqs.len();
     let results: Arc<Mutex<Vec<Value>>> = Arc::new(Mutex::new(vec![Value::Null; k]));
-    let r2 = reqs.pop().unwrap();
-    let r1 = reqs.pop().unwrap();
-    let slots = Arc::new(Mutex::new(vec![Some(r1), Some(r2)]));
+    let slots = Arc::new(Mutex::new(reqs));
     let call = move |core: &Core<VApp>, i: usize, slots: &Mutex<Vec<Option<crux_core::Request<crate::app::VOp>>>>| -> Value {
         let r = catch_unwind(AssertUnwindSafe(|| {
-            if i < 2 {
+            if i < nreq {
                 let mut req = slots.lock().unwrap()[i].take().unwrap();
                 match core.resolve(&mut req, 10 + i as u32) {
                     Ok(e) => json!({"res":"ok","effs":e.len()}),
@@ -393,6 +401,7 @@ pub fn run_mt(case: &MtCase, controlled: bool) -> Value {
 pub fn run_stress(scenario: &str, threads: usize, iters: usize) -> Value {
     let base = MtCase { name: "stress".into(), scenario: scenario.into(), threads, sched: vec![], preempt: None };
     let reference = run_mt(&base, false)["agg"].clone();
+    let _ = table_for;
     let mut bad = 0usize;
     let mut first = Value::Null;
     for it in 0..iters {
@@ -463,16 +472,14 @@ fn stress_stream(k: usize, it: usize) -> Value {
 }
 
 fn stress_core(scenario: &str, k: usize, it: usize) -> Value {
-    let _ctx = install_case(table_for(scenario));
+    let k = if scenario == "all_core" { k.max(2) } else { k.min(3).max(2) };
+    let _ctx = install_case(table_for_k(scenario, k));
     let core = Core::<VApp>::new();
     let effs = core.process_event(Event::Run(0));
-    let mut reqs: Vec<Option<crux_core::Request<crate::app::VOp>>> =
+    let mut owned: Vec<Option<crux_core::Request<crate::app::VOp>>> =
         effs.into_iter().map(|e| { let Effect::Op(r) = e; Some(r) }).collect();
-    let k = k.min(3).max(2);
+    owned.resize_with(k.max(owned.len()), || None);
     let barrier = std::sync::Barrier::new(k);
-    let r1 = reqs[0].take();
-    let r2 = reqs[1].take();
-    let mut owned = vec![r1, r2, None];
     let results: Vec<Value> = std::thread::scope(|sc| {
         let hs: Vec<_> = (0..k)
             .map(|i| {
